@@ -21,10 +21,10 @@
 (* replayed into the real code.                                                               *)
 EXTENDS Integers, Sequences, FiniteSets, TLC, Json
 
-CONSTANTS Exs, Typs, Levs, Modes, Fees, Bals, Warms, Rts, Sims, Hps,   \* the configuration lattice (Hps: which
+CONSTANTS Exs, Typs, Levs, Modes, Fees, Bals, Warms, Rts, Sims, Hps, Gens,   \* the configuration lattice (Gens: generate_* flag; Hps: which
                                                   \* hyperparameters dict is passed: none / complete / strict subset)
           Outcomes,                                               \* where an earlier call may end
-          PEx, PTyp, PLev, PMode, PFee, PBal, PWarm, PRt, PSim, PHp,   \* the probe's arguments
+          PEx, PTyp, PLev, PMode, PFee, PBal, PWarm, PRt, PSim, PHp, PGen,   \* the probe's arguments
           MaxCalls,            \* number of earlier calls
           MaxFlips,            \* an earlier call differs from the probe in at most that many dimensions
           CacheInvalidated,    \* TRUE: injecting a configuration drops the memo         (code: never)
@@ -42,10 +42,10 @@ Uninit == {"uninit"}    \* api.drivers while jesse.services.api is not imported 
 NA     == "n/a"
 
 Probe == [ex |-> PEx, typ |-> PTyp, lev |-> PLev, mode |-> PMode, fee |-> PFee, bal |-> PBal,
-          warm |-> PWarm, rt |-> PRt, sim |-> PSim, hp |-> PHp, out |-> "ok"]
-Dims == {"ex", "typ", "lev", "mode", "fee", "bal", "warm", "rt", "sim", "hp"}
+          warm |-> PWarm, rt |-> PRt, sim |-> PSim, hp |-> PHp, gen |-> PGen, out |-> "ok"]
+Dims == {"ex", "typ", "lev", "mode", "fee", "bal", "warm", "rt", "sim", "hp", "gen"}
 Vals(d) == CASE d = "ex" -> Exs [] d = "typ" -> Typs [] d = "lev" -> Levs [] d = "mode" -> Modes [] d = "fee" -> Fees
-             [] d = "bal" -> Bals [] d = "warm" -> Warms [] d = "rt" -> Rts [] d = "sim" -> Sims [] d = "hp" -> Hps
+             [] d = "bal" -> Bals [] d = "warm" -> Warms [] d = "rt" -> Rts [] d = "sim" -> Sims [] d = "hp" -> Hps [] d = "gen" -> Gens
 Flips(x) == Cardinality({d \in Dims : x[d] # Probe[d]})
 \* all argument records that differ from the probe in at most n dimensions (built, not filtered: the full
 \* lattice has tens of thousands of points)
@@ -70,12 +70,13 @@ EmptyCache == [type |-> [e \in Exs |-> Absent], lev |-> [e \in Exs |-> Absent], 
 \* the exchange a session names before anything reads them
 DefaultCfg == [type |-> [e \in Exs |-> "default"], lev |-> [e \in Exs |-> "default"],
                mode |-> [e \in Exs |-> "default"], fee |-> [e \in Exs |-> "default"],
-               bal |-> [e \in Exs |-> "default"], warm |-> "default", consEx |-> NoneV, rt |-> NoneV, tmode |-> ""]
+               bal |-> [e \in Exs |-> "default"], warm |-> "default", consEx |-> NoneV, rt |-> NoneV, tmode |-> "",
+               debug |-> FALSE]                    \* config['app']['debug_mode']
 NoExchange == [name |-> NoneV, typ |-> NoneV, lev |-> NoneV, mode |-> NoneV, fee |-> NoneV, bal |-> NoneV]
 NoSeen == [driver |-> NA, typ |-> NA, lev |-> NA, mode |-> NA, feeRate |-> NA, feeTrade |-> NA, bal |-> NA,
-           warmSize |-> NA, warmVisible |-> NA, rt |-> <<NA, NA>>, shared |-> NA]
+           warmSize |-> NA, warmVisible |-> NA, rt |-> <<NA, NA>>, shared |-> NA, debug |-> NA]
 Null == [ex |-> NA, typ |-> NA, lev |-> NA, mode |-> NA, fee |-> NA, bal |-> NA, warm |-> NA, rt |-> NA,
-         sim |-> NA, hp |-> NA, out |-> NA]
+         sim |-> NA, hp |-> NA, gen |-> NA, out |-> NA]
 
 \* store/state_exchanges.py: ExchangesState.__init__ for the one considered exchange.  The account type,
 \* the leverage and its mode go through the memo, balance and fee are read from the dict directly.
@@ -93,7 +94,7 @@ ExchangeFill(c, g, e) ==
 Init == /\ cache = EmptyCache /\ cfg = DefaultCfg /\ drivers = Uninit /\ router = <<NoneV, NoneV>>
         /\ store = [exch |-> NoExchange, warmInj |-> NoneV, shared |-> "empty", traded |-> FALSE]
         /\ phase = "idle" /\ a = Null /\ ncalls = 0 /\ isProbe = FALSE /\ seen = NoSeen
-        /\ pre = <<>> /\ used = <<NA, NA>> /\ hist = <<>> /\ excs = <<>>
+        /\ pre = <<>> /\ used = <<NA, NA, NA>> /\ hist = <<>> /\ excs = <<>>
 
 \* ---- the property, independent of the shape above: in its simulation the probe reads its arguments
 Sees(s, c) ==
@@ -134,7 +135,7 @@ CrashPhase(o) == CASE o = "cfgerr" -> "mode"       \* KeyError in _format_config
                    [] o = "idle" -> "stepping"      \* should_long() before the first order
                    [] o = "reject" -> "trading"     \* InsufficientMargin out of the entry order
                    [] o = "open" -> "trading"       \* on_open_position()
-                   [] o = "closed" -> "closed"      \* on_close_position(), the strategy has read self.metrics
+                   [] o = "closed" -> "closed"      \* on_close_position(), after self.metrics was read
                    [] o = "terminate" -> "closed"   \* terminate()
                    [] OTHER -> "never"
 NeedsOrders(o) == o \in {"reject", "open", "closed"}        \* without a driver no order exists: nothing raises
@@ -149,9 +150,9 @@ Begin(x, probe) ==
   /\ hist' = IF probe THEN hist ELSE Append(hist, x)
   \* the process state the probe starts in (kept so that each one is exported with its own history)
   /\ pre' = IF probe THEN <<cache, cfg, drivers, router, store, ncalls, used>> ELSE pre
-  \* ghost: the simulator and the kind of hyperparameters dict of the latest earlier call.  Neither is kept by
+  \* ghost: the simulator, the kind of hyperparameters dict and the generate_* flag of the latest earlier call.  Neither is kept by
   \* the process; remembering them makes TLC export (and the harness replay) a history for each of them
-  /\ used' = IF probe THEN used ELSE <<x.sim, x.hp>>
+  /\ used' = IF probe THEN used ELSE <<x.sim, x.hp, x.gen>>
   /\ phase' = "mode" /\ UNCHANGED <<cache, drivers, router, store, seen, excs>>
 
 \* ---- l.100: set_config(_format_config(config)) (config.py l.110-146) -----------------------------
@@ -196,7 +197,11 @@ InitStorage ==
 InjectWarmup ==
   /\ Goes("storage")
   /\ store' = [store EXCEPT !.warmInj = a.warm]
-  /\ phase' = "warmed" /\ UNCHANGED <<cache, cfg, drivers, router, a, ncalls, isProbe, seen, pre, used, hist, excs>>
+  \* the simulator starts (backtest_mode.py l.392 / l.758): generate_logs switches config['app']['debug_mode']
+  \* on; nothing ever switches it off again (reset_config restores nothing).  As the code stands the flag is
+  \* not part of the returned value.
+  /\ cfg' = IF a.gen = "logs" THEN [cfg EXCEPT !.debug = TRUE] ELSE cfg
+  /\ phase' = "warmed" /\ UNCHANGED <<cache, drivers, router, a, ncalls, isProbe, seen, pre, used, hist, excs>>
 
 \* ---- simulator -> _prepare_routes: the first Broker of the process imports services.api, whose API()
 \* builds Sandbox drivers for get_config('app.considering_exchanges') - once (api.py l.9-32)
@@ -216,7 +221,8 @@ FirstStep ==
              THEN [seen EXCEPT !.typ = store.exch.typ, !.lev = store.exch.lev, !.mode = store.exch.mode,
                                !.feeRate = store.exch.fee, !.bal = store.exch.bal,
                                !.warmSize = Lookup0(cache, cfg, "warm"), !.warmVisible = store.warmInj,
-                               !.rt = router, !.shared = store.shared]
+                               !.rt = router, !.shared = store.shared,
+                               !.debug = IF cfg.debug THEN "on" ELSE "off"]
              ELSE seen
   /\ store' = [store EXCEPT !.shared = "dirty"]
   /\ phase' = "stepping" /\ UNCHANGED <<cfg, drivers, router, a, ncalls, isProbe, pre, used, hist, excs>>
@@ -228,11 +234,11 @@ Submit ==
   /\ seen' = IF isProbe THEN [seen EXCEPT !.driver = IF a.ex \in drivers THEN "yes" ELSE "no"] ELSE seen
   /\ phase' = "trading" /\ UNCHANGED <<cache, cfg, drivers, router, a, ncalls, isProbe, pre, used, hist, excs>>
 
-\* ---- a trade closes; a strategy that looks at self.metrics makes ClosedTrade.fee read the memoised
-\* fee (ClosedTrade.py l.96) already now
+\* ---- a trade closes; the strategies look at self.metrics then (adaptive sizing), which makes
+\* ClosedTrade.fee read the memoised fee (ClosedTrade.py l.96) already now
 CloseTrade ==
   /\ Goes("trading")
-  /\ cache' = IF store.traded /\ a.out = "closed" THEN Fill(cache, cfg, "fee", a.ex) ELSE cache
+  /\ cache' = IF store.traded THEN Fill(cache, cfg, "fee", a.ex) ELSE cache
   /\ phase' = "closed" /\ UNCHANGED <<cfg, drivers, router, store, a, ncalls, isProbe, seen, pre, used, hist, excs>>
 
 \* ---- _generate_outputs: metrics over the closed trades read ClosedTrade.fee ---------------------
